@@ -332,7 +332,7 @@ func parseBlock(nativeBlock *hclsyntax.Block, from, leadComments, lineComments, 
 	children.AppendUnstructuredTokens(before.Tokens())
 	block.body = body
 	children.AppendNode(body)
-	if nativeBlock.OpenBraceRange.Start.Line == nativeBlock.CloseBraceRange.Start.Line {
+	if !startsOnNewLine(bodyTokens.Tokens()) {
 		// Single-line block: see Body.singleLineBlock.
 		body.content.(*Body).singleLineBlock = block
 	}
@@ -350,6 +350,28 @@ func parseBlock(nativeBlock *hclsyntax.Block, from, leadComments, lineComments, 
 	children.AppendUnstructuredTokens(newline.Tokens())
 
 	return newNode(block)
+}
+
+// startsOnNewLine returns true if the given tokens, which are the ones between
+// the braces of a block, begin with a line end (possibly after comments), as
+// they do for a block in the usual multi-line form. If they don't, the block
+// is in the single-line form: its only argument, or its closing brace, follows
+// the opening brace on the same line.
+func startsOnNewLine(toks Tokens) bool {
+	for _, tok := range toks {
+		switch tok.Type {
+		case hclsyntax.TokenNewline:
+			return true
+		case hclsyntax.TokenComment:
+			if len(tok.Bytes) > 0 && tok.Bytes[len(tok.Bytes)-1] == '\n' {
+				// single-line comments include their terminating newline
+				return true
+			}
+		default:
+			return false
+		}
+	}
+	return false
 }
 
 func parseBlockLabels(nativeBlock *hclsyntax.Block, from inputTokens) (inputTokens, *node, inputTokens) {
